@@ -104,6 +104,26 @@ def run (s : State) : List Op → State
 /-- `Workspace::evaluate_invocable` finds a model evaluator for `model`. -/
 def canEvaluate (s : State) (model : String) : Bool := s.evals.contains model
 
+/-! ## Loading a directory (`Workspace::new(Some(dir))` → `load_and_deploy_models`, workspace.rs:178-216)
+
+Every `.dmn` file is read and parsed; a file that cannot be read as a model is skipped (its error is printed), a
+model is given to `add` (whose error is printed as well), and at the end everything stored is deployed. -/
+
+/-- What one file of the directory is: not a model (unreadable, or `dmntk_model::parse` answers an error), or a
+model. -/
+inductive Doc where
+  | unreadable
+  | model (d : Def)
+  deriving Repr, Inhabited
+
+/-- One file: `parse`, then `add` (both errors are reported and swallowed). -/
+def loadStep (s : State) : Doc → State
+  | .unreadable => s
+  | .model d => (add s d).1
+
+/-- `load_and_deploy_models`: all files in directory order, then `deploy`. -/
+def load (ds : List Doc) : State := deploy (ds.foldl loadStep init)
+
 /-! ## The abstract specification: a list of definitions and nothing else -/
 
 namespace Spec
